@@ -105,14 +105,16 @@ package kvstore
 //@   flag termination
 //@   requires #inv_in: k.inv()
 //@   ensures  #ok: result == nil
-//@   ensures  #gone [C11]: !k.has(hkey)
-//@   ensures  #others [C11]: forall h uint64, i int {k.tables[i].has(h)} :: h != hkey && 0 <= i && i < len(k.tables) ==>
+//@   ensures  #gone [C11] uses(pos, inv, above, same_tables, same_keys): !k.has(hkey)
+//@   ensures  #others [C11] uses(pos, same_tables, same_keys): forall h uint64, i int {k.tables[i].has(h)} :: h != hkey && 0 <= i && i < len(k.tables) ==>
 //@                k.tables[i].has(h) == old(k.tables[i].has(h)) && (k.tables[i].has(h) ==> k.tables[i].off(h) == old(k.tables[i].off(h)))
-//@   ensures  #same_tables: len(k.tables) == old(len(k.tables)) && forall j int {k.tables[j]} :: 0 <= j && j < len(k.tables) ==> k.tables[j] == old(k.tables[j])
-//@   ensures  #inv_out: k.inv()
-//@   loop 0 invariant #scanned: -1 <= i && i < len(k.tables) && k.inv() && (forall j int {k.tables[j]} :: i < j && j < len(k.tables) ==> !k.tables[j].has(hkey)) &&
-//@                len(k.tables) == old(len(k.tables)) && (forall j int {k.tables[j]} :: 0 <= j && j < len(k.tables) ==> k.tables[j] == old(k.tables[j])) &&
-//@                (forall j int, h uint64 {k.tables[j].has(h)} :: 0 <= j && j < len(k.tables) ==> k.tables[j].has(h) == old(k.tables[j].has(h)) && (k.tables[j].has(h) ==> k.tables[j].off(h) == old(k.tables[j].off(h))))
+//@   ensures  #same_tables uses(pos, same_tables): len(k.tables) == old(len(k.tables)) && forall j int {k.tables[j]} :: 0 <= j && j < len(k.tables) ==> k.tables[j] == old(k.tables[j])
+//@   ensures  #inv_out uses(pos, inv, same_tables, frames, callee_inv): k.inv()
+//@   loop 0 invariant #pos: -1 <= i && i < len(k.tables)
+//@   loop 0 invariant #inv uses(pos, same_tables, frames, callee_inv): k.inv()
+//@   loop 0 invariant #above uses(pos, inv, same_tables): forall j int {k.tables[j]} :: i < j && j < len(k.tables) ==> !k.tables[j].has(hkey)
+//@   loop 0 invariant #same_tables uses(pos): len(k.tables) == old(len(k.tables)) && (forall j int {k.tables[j]} :: 0 <= j && j < len(k.tables) ==> k.tables[j] == old(k.tables[j]))
+//@   loop 0 invariant #same_keys uses(pos, inv, same_tables): forall j int, h uint64 {k.tables[j].has(h)} :: 0 <= j && j < len(k.tables) ==> k.tables[j].has(h) == old(k.tables[j].has(h)) && (k.tables[j].has(h) ==> k.tables[j].off(h) == old(k.tables[j].off(h)))
 //@   loop 0 decreases i + 1
 
 //@ func (k *KVStore) UpdateTTL(hkey uint64, data storage.Entry) error
@@ -174,7 +176,7 @@ package kvstore
 //@   ensures  #states: forall j int {k.tables[j]} :: 0 <= j && j < len(k.tables) ==> k.tables[j].state == old(k.tables[j].state) && k.tables[j].offset == old(k.tables[j].offset)
 //@   modifies every(k.tables[0].garbage), every(k.tables[0].inuse), every(map(k.tables[0].hkeys)), every(k.tables[0].offsetIndex.set)
 //@   loop 0 invariant #bounds: -2 <= i && i <= len(k.tables) - 2 && len(k.tables) == old(len(k.tables))
-//@   loop 0 invariant #tables uses(bounds, inv_weak, maps_distinct, frames): forall j int {k.tables[j]} :: 0 <= j && j < len(k.tables) ==> k.tables[j] == old(k.tables[j]) && k.tables[j] != nil && k.tables[j].inv() && k.tables[j].allocated == k.tableSize &&
+//@   loop 0 invariant #tables uses(bounds, inv_weak, maps_distinct, frames, callee_inv): forall j int {k.tables[j]} :: 0 <= j && j < len(k.tables) ==> k.tables[j] == old(k.tables[j]) && k.tables[j] != nil && k.tables[j].inv() && k.tables[j].allocated == k.tableSize &&
 //@                      k.tables[j].state == old(k.tables[j].state) && k.tables[j].offset == old(k.tables[j].offset)
 //@   loop 0 invariant #gone uses(bounds, tables): forall j int {k.tables[j]} :: i < j && j < len(k.tables) - 1 ==> !k.tables[j].has(hkey)
 //@   loop 0 invariant #uniq_others uses(bounds, tables): forall h uint64, a int, b int {k.tables[a].has(h), k.tables[b].has(h)} :: h != hkey && 0 <= a && a < b && b < len(k.tables) ==> !(k.tables[a].has(h) && k.tables[b].has(h))
@@ -193,6 +195,7 @@ package kvstore
 //@ pure func (k *KVStore) fits(n int) bool = len(k.tables) >= 1 && n + k.tables[len(k.tables)-1].offset < k.tableSize
 
 //@ func (k *KVStore) Put(hkey uint64, value storage.Entry) error
+//@   hint pre\..*deleteStale\.(uniq_others|inv_weak) uses(retry, size_fits, frames, keytypes, inv_in, wf, entry, separate, size)
 //@   props C11 C17 C20
 //@   flag termination
 //@   requires #inv_in: k.inv()
@@ -214,6 +217,7 @@ package kvstore
 //@   loop 0 decreases ite(k.fits(29 + len(value.key) + len(value.value)), 0, 1)
 
 //@ func (k *KVStore) PutRaw(hkey uint64, value []byte) error
+//@   hint pre\..*deleteStale\.(uniq_others|inv_weak) uses(retry, size_fits, frames, keytypes, inv_in, wf, entry, separate, size)
 //@   props C11 C04 C17 C20
 //@   flag termination
 //@   requires #inv_in: k.inv()
